@@ -391,7 +391,10 @@ def run(ctx):
             cond = W.expand(cev.op(bl.term["op"], (bl.idx, "term")))
             if cond[0] == "discr" and values.strip_payload(cond[1]) == rct:
                 cases = {c[0]: c[1] for c in bl.term["cases"]}
-                okb = cases[0] if 0 in cases else (bl.term["otherwise"] if 1 in cases else None)
+                cand = cases[0] if 0 in cases else (bl.term["otherwise"] if 1 in cases else None)
+                # a guarded Err arm (`Err(ref e) if ..`) re-tests the discriminant with the Ok case already excluded (-> unreachable)
+                if cand is not None and cfn.blocks[cand].term["k"] != "unreachable" and (okb is None or cfn.dominates(bl.idx, okb)):
+                    okb = cand
     if okb is None:
         raise AnchorMissing("the match on recv_from's result in collect_requests")
     crecs = {bb: t["fn"].get("trait_method") for bb, t in cfn.calls() if t["fn"].get("trait") == TRAIT}
